@@ -1,6 +1,11 @@
 Require Import ExtrOcamlBasic.
-Require Import GV.Model.C15_io.
-Definition vp_run := c15_run_all.
-Definition vp_check := c15_check_all.
-Definition vp_nontriv := c15_nontriv_all.
+From Coq Require Import ZArith List.
+Require Import GV.Model.C15_io GV.Model.C01a_io.
+Import ListNotations.
+Local Open Scope Z_scope.
+(* cases "1000 :: <authority script>": accepted commands through the real NetworkAuthority command
+   handle incl. commands accepted while the bus is stalled for a moment (event 9): every frame arrives *)
+Definition vp_run (l : list Z) : list Z := match l with 1000 :: r => c01a_run r | _ => c15_run_all l end.
+Definition vp_check (l o : list Z) : bool := match l with 1000 :: r => c01a_check r o | _ => c15_check_all l o end.
+Definition vp_nontriv (l o : list Z) : bool := match l with 1000 :: r => c01a_nontriv r o | _ => c15_nontriv_all l o end.
 Extraction "model.ml" vp_run vp_check vp_nontriv.
